@@ -16,7 +16,7 @@ def gOfLR (T : LRTables) (gprods : List Rule) : Grammar := ⟨T.start, gprods⟩
 inductive Path (T : LRTables) : List Nat → List Sym → Prop
   | base (s : Nat) : Path T [s] []
   | step {q s : Nat} {rest : List Nat} {X : Sym} {syms : List Sym} :
-      accOf T q = some X → s ∈ preds T q → Path T (s :: rest) syms → Path T (q :: s :: rest) (X :: syms)
+      lrAccOf T q = some X → s ∈ preds T q → Path T (s :: rest) syms → Path T (q :: s :: rest) (X :: syms)
 
 /-- The counting stack entries (top first) derive, bottom to top, the consumed token types. -/
 inductive ItemsYield (G : Grammar) : List PTItem → List Nat → Prop
@@ -104,7 +104,7 @@ theorem edge_of_goto {T : LRTables} {s : Nat} {row : LRRow} {a g : Nat}
     exact Or.inr ⟨(a', g'), hmem, rfl⟩
 
 theorem acc_of_edge {T : LRTables} (hc : accConsistent T = true) {s : Nat} {X : Sym} {q : Nat}
-    (he : (s, X, q) ∈ lrEdges T) : accOf T q = some X ∧ s ∈ preds T q := by
+    (he : (s, X, q) ∈ lrEdges T) : lrAccOf T q = some X ∧ s ∈ preds T q := by
   simp only [accConsistent, List.all_eq_true, beq_iff_eq] at hc
   refine ⟨hc _ he, ?_⟩
   simp only [preds, List.mem_map, List.mem_filter, beq_iff_eq]
